@@ -57,6 +57,11 @@ func (in *Interp) intrinsic(fn *ssa.Function, args []Value) (Value, bool) {
 			return in.mkStr(bs), true
 		}
 		rt := fn.Signature.Results().At(0).Type()
+		if isFloat(rt) {
+			v := st.RealVar(vname)
+			in.Nondets = append(in.Nondets, v)
+			return v, true
+		}
 		w, _, ok := intInfo(rt)
 		if !ok {
 			panic(in.unsupported("nondet of type " + rt.String()))
@@ -131,6 +136,8 @@ func (in *Interp) intrinsic(fn *ssa.Function, args []Value) (Value, bool) {
 		}
 		in.Exports[tag] = v
 		return &TupleVal{}, true
+	case name == "zzNative":
+		return in.St.F, true
 	case name == "zzConcrete":
 		t := args[0].(*smt.Term)
 		if t.IsConst() {
@@ -160,6 +167,7 @@ func zzNondetU16(tag string) uint16    { panic("zz") }
 func zzNondetU32(tag string) uint32    { panic("zz") }
 func zzNondetU64(tag string) uint64    { panic("zz") }
 func zzNondetInt(tag string) int       { panic("zz") }
+func zzNondetF32(tag string) float32   { panic("zz") }
 func zzNondetBits(tag string, n int) string { panic("zz") }
 func zzNondetString(tag string, n int) string { panic("zz") }
 func zzAssume(c bool)                  { panic("zz") }
@@ -167,6 +175,7 @@ func zzAssert(tag string, c bool)      { panic("zz") }
 func zzReach(tag string)               { panic("zz") }
 func zzExport(tag string, v interface{}) { panic("zz") }
 func zzConcrete(v int) int             { panic("zz") }
+func zzNative() bool                   { panic("zz") }
 func zzUnsupported(msg string)         { panic("zz") }
 func zzIsSymbolic(v int) bool          { panic("zz") }
 func zzHavocHidden(root interface{}, tag string) int { panic("zz") }
